@@ -18,7 +18,7 @@ def _created_on_chain(node):
     return created
 
 
-def mutants(tg, parent, rng, tags=('C01', 'C02', 'C05', 'struct')):
+def mutants(tg, parent, rng, tags=('C01', 'C02', 'C05', 'struct'), horizon_env=None):
     env, keys = tg.env, tg.keys
     out = []
     height = parent.height + 1
@@ -231,6 +231,20 @@ def mutants(tg, parent, rng, tags=('C01', 'C02', 'C05', 'struct')):
     if parent.view.time > 0:
         add('time-before-parent', 'C05', [], ts_=parent.view.time - 1)
     add('time-31s-in-future', 'C05', [], now=ts - 31)
+    if horizon_env is not None and horizon_env.hz >= 1 and height > 1:
+        # a checkpoint horizon is in force: blocks that merely DECLARE a height at or below it (while attached here)
+        hz, known = horizon_env.hz, horizon_env.known
+        ds = [d for d in range(1, hz + 1) if d != height]
+        free = [d for d in ds if d not in known]
+        picks = ([rng.choice(free)] if free else []) + ([rng.choice([d for d in ds if d in known])] if [d for d in ds if d in known] else [])
+        for d in picks:
+            lab = 'declared-height-%s-below-horizon' % ('not-checkpointed' if d not in known else 'checkpointed')
+            ovd = {'height': d, 'cb_height': d, 'target': b'\xff' * 32}
+            add(lab + '+any-target', 'C05', [], ov=ovd)
+            add(lab + '+huge-reward', 'C02', [], ov=ovd, reward=10 ** 15)
+            if avail:
+                wrong_ = [pk for pk in keys.pks if pk != avail[0][1][1]][0]
+                add(lab + '+signed-by-other-key', 'C01', [spend([avail[0]], sign_with={avail[0][0]: wrong_})], ov=ovd)
     add('height-plus-two', 'C05', [], ov={'height': height + 1, 'cb_height': height + 1})
     add('height-same-as-parent', 'C05', [], ov={'height': height - 1, 'cb_height': height - 1})
     add('reward-height-differs', 'C05', [], ov={'cb_height': height + 1})
